@@ -386,28 +386,34 @@ func exploreC13(t *testing.T, w *Worker, r *simrt.RNG) {
 			continue
 		}
 		type mode struct {
-			after bool
-			as    string
+			after  bool
+			as     string
+			sticky bool
 		}
-		modes := []mode{{false, ""}}
+		modes := []mode{{false, "", false}}
 		switch {
+		case io.Kind == "tempfile" || io.Kind == "tempdir" || io.Kind == "create" || io.Kind == "openfile" || io.Kind == "open":
+			// a full descriptor table: creation keeps failing (a retry does not help)
+			if r.Intn(2) == 0 {
+				modes = append(modes, mode{false, "emfile", true})
+			}
 		case io.Kind == "encode" || strings.HasPrefix(io.Kind, "write") || io.Kind == "flush":
 			// torn write reported; and, sometimes, the error a full disk gives
-			modes = append(modes, mode{true, ""})
+			modes = append(modes, mode{true, "", false})
 			if r.Intn(3) == 0 {
-				modes = append(modes, mode{r.Bool(), []string{"enospc", "efbig"}[r.Intn(2)]})
+				modes = append(modes, mode{r.Bool(), []string{"enospc", "efbig"}[r.Intn(2)], r.Bool()})
 			}
 		case readKind(io.Kind):
 			// what a truncated run file gives
 			if r.Intn(2) == 0 {
-				modes = append(modes, mode{false, "unexpected-eof"})
+				modes = append(modes, mode{false, "unexpected-eof", false})
 			}
 		}
 		for _, md := range modes {
 			after := md.after
 			c := *base
 			c.Sched = explicit
-			c.Faults = []simrt.FaultSpec{{Ordinal: io.Ordinal, After: after, As: md.as}}
+			c.Faults = []simrt.FaultSpec{{Ordinal: io.Ordinal, After: after, As: md.as, Sticky: md.sticky}}
 			res := runMorass(t, &c, RunOpts{})
 			w.Stats.Probes[fmt.Sprintf("fault_position[%s]", io.Kind)]++
 			w.Report(&c, res)
